@@ -439,7 +439,7 @@ func (h *Handler) doBatchCheck(ctx context.Context, body io.Reader, query url.Va
 			errMsg = result.Err.Error()
 		}
 		responses[i] = &CheckPermissionResultWithError{
-			Allowed: result.Membership == checkgroup.IsMember,
+			Allowed: result.Err == nil && result.Membership == checkgroup.IsMember,
 			Error:   errMsg,
 		}
 	}
@@ -471,7 +471,7 @@ func (h *Handler) BatchCheck(ctx context.Context, req *rts.BatchCheckRequest) (*
 			errMsg = result.Err.Error()
 		}
 		responses[i] = &rts.CheckResponseWithError{
-			Allowed:   result.Membership == checkgroup.IsMember,
+			Allowed:   result.Err == nil && result.Membership == checkgroup.IsMember,
 			Error:     errMsg,
 			Snaptoken: "not yet implemented",
 		}
